@@ -56,7 +56,7 @@ Record cfg := mkCfg {
   c_hdr_err : err;    (* non-zero: Start fails with this error (no goroutine is started) *)
   c_and : bool;       (* reader loop condition: true  ctx.Err()==nil && err==nil  (repaired, 687d55c)
                                                 false ctx.Err()==nil || err==nil  (original) *)
-  c_recheck : bool;   (* serializer re-checks ctx.Err() after every receive (repaired, 6ff9f52);
+  c_recheck : bool;   (* serializer re-checks ctx.Err() after every receive (repaired, 413adf1);
                          false: original code, forwards whatever it received *)
   c_nextctx : bool;   (* true (repaired, 1677bc6): the serializer never writes cData.Err, Next takes
                          the error of a closed ordered queue from cData.Err, else ctx.Err(), and
